@@ -403,6 +403,62 @@ type Guard struct {
 	Cond     ssa.Value
 	Polarity bool
 	If       *ssa.If
+	Fr       *Frame // set when the guard was taken out of a predicate helper (expandGuards): evaluate Cond in this frame
+}
+
+// expandGuards replaces a guard of the form `helper(args…)` (an in-module function with a single bool result, taken on
+// its true edge) by the guards under which that helper returns true, bound to the call site: a predicate extracted
+// into a function guards exactly like its body did. Helpers with several non-false returns are left as they are.
+func (c *Ctx) expandGuards(gs []Guard, fr *Frame, depth int) []Guard {
+	var out []Guard
+	for _, g := range gs {
+		call, ok := g.Cond.(*ssa.Call)
+		if !ok || !g.Polarity || depth > 2 {
+			out = append(out, g)
+			continue
+		}
+		h := call.Common().StaticCallee()
+		if h == nil || call.Common().IsInvoke() || !c.inModule(h) || len(h.Blocks) == 0 || h.Signature.Results().Len() != 1 {
+			out = append(out, g)
+			continue
+		}
+		if b, isB := h.Signature.Results().At(0).Type().Underlying().(*types.Basic); !isB || b.Kind() != types.Bool {
+			out = append(out, g)
+			continue
+		}
+		var yes []*ssa.Return
+		eachInstr(h, func(in ssa.Instruction) {
+			if ret, ok := in.(*ssa.Return); ok {
+				if k, isK := ret.Results[0].(*ssa.Const); isK && k.Value != nil && !constant.BoolVal(k.Value) {
+					return
+				}
+				yes = append(yes, ret)
+			}
+		})
+		if len(yes) != 1 {
+			out = append(out, g)
+			continue
+		}
+		base := fr
+		if g.Fr != nil {
+			base = g.Fr
+		}
+		d := 1
+		if base != nil {
+			d = base.Depth + 1
+		}
+		hfr := &Frame{Fn: h, Site: call, Parent: base, Depth: d}
+		inner := guardsOfInstr(yes[0])
+		if _, isK := yes[0].Results[0].(*ssa.Const); !isK {
+			inner = append(inner, Guard{Cond: yes[0].Results[0], Polarity: true})
+		}
+		for i := range inner {
+			inner[i].Fr = hfr
+		}
+		out = append(out, g) // the call itself stays visible
+		out = append(out, c.expandGuards(inner, hfr, depth+1)...)
+	}
+	return out
 }
 
 // edgeDominates reports whether taking edge from->to is necessary to reach b.
@@ -857,6 +913,84 @@ func (ev *Evaluator) evalD(v ssa.Value, env Env, fr *Frame, d int) (constant.Val
 			if s, ok := ev.evalD(x.Call.Args[0], env, fr, d+1); ok && s.Kind() == constant.String {
 				return constant.MakeInt64(int64(len(constant.StringVal(s)))), true
 			}
+		}
+		// a helper of the module applied to constants: evaluate its body (value only; anything read from memory
+		// makes the evaluation fail, so only pure predicates/arithmetics are decided this way)
+		if callee := x.Call.StaticCallee(); callee != nil && !x.Call.IsInvoke() && len(callee.Blocks) > 0 && callee.Pkg != nil &&
+			strings.HasPrefix(callee.Pkg.Pkg.Path(), logPath) && len(callee.FreeVars) == 0 && d < 30 {
+			args := make([]constant.Value, len(x.Call.Args))
+			for i, a := range x.Call.Args {
+				k, ok := ev.evalD(a, env, fr, d+1)
+				if !ok {
+					return nil, false
+				}
+				args[i] = k
+			}
+			if rs, ok := ev.evalPure(callee, args, d+1); ok && len(rs) == 1 {
+				return rs[0], true
+			}
+		}
+	}
+	return nil, false
+}
+
+// evalPure walks callee with constant arguments: conditions, φs and results must be computable from the arguments
+// and constants alone.
+func (ev *Evaluator) evalPure(callee *ssa.Function, args []constant.Value, d int) ([]constant.Value, bool) {
+	if len(args) != len(callee.Params) {
+		return nil, false
+	}
+	env := Env{}
+	for i, p := range callee.Params {
+		env[envKey{p, -1, ""}] = args[i]
+	}
+	inner := &Evaluator{} // the caller's assumptions are about the caller's values
+	var prev *ssa.BasicBlock
+	b := callee.Blocks[0]
+	for steps := 0; steps < 400; steps++ {
+		for _, in := range b.Instrs {
+			phi, ok := in.(*ssa.Phi)
+			if !ok {
+				break
+			}
+			if prev == nil {
+				return nil, false
+			}
+			for i, pb := range b.Preds {
+				if pb == prev {
+					k, ok := inner.evalD(phi.Edges[i], env, nil, d+1)
+					if !ok {
+						return nil, false
+					}
+					env[envKey{phi, -1, ""}] = k
+				}
+			}
+		}
+		switch t := b.Instrs[len(b.Instrs)-1].(type) {
+		case *ssa.Return:
+			var out []constant.Value
+			for _, r := range t.Results {
+				k, ok := inner.evalD(r, env, nil, d+1)
+				if !ok {
+					return nil, false
+				}
+				out = append(out, k)
+			}
+			return out, true
+		case *ssa.Jump:
+			prev, b = b, b.Succs[0]
+		case *ssa.If:
+			k, ok := inner.evalD(t.Cond, env, nil, d+1)
+			if !ok || k.Kind() != constant.Bool {
+				return nil, false
+			}
+			if constant.BoolVal(k) {
+				prev, b = b, b.Succs[0]
+			} else {
+				prev, b = b, b.Succs[1]
+			}
+		default:
+			return nil, false
 		}
 	}
 	return nil, false
